@@ -71,6 +71,8 @@ ReadClausesS(hp, m, e, stale) ==
   NonEmpty([i \in 1..Len(e.reads) |->
      LET r == e.reads[i] IN
      IF ~InHeap(hp, r.b, r.a) THEN "read:" \o r.route \o ":unknown-object"
+     ELSE IF Cardinality({x \in hp : x.b = r.b /\ x.a = r.a}) > 1
+     THEN "alloc:two-objects-at-one-address"        \* (storage of a live object was handed out again: the read-back has no single type)
      ELSE LET o == HeapAt(hp, r.b, r.a) IN
           IF <<r.b, r.a>> \in stale /\ r.route \in {"ctor", "hybrid"} /\ (r.exc # "" \/ r.v # o.v)
           THEN "stale:retained-handle-after-redistributing-update-through-another-view"
